@@ -201,6 +201,38 @@ def predicate(kind, args, impl):
     if kind == "spec":
         want = ref_spec(args)
         return impl == want, "grammar + direct construction says %s" % want
+    if kind == "bseq":
+        # every Build of the call sequence: the last explicit base if any (judged by the model only), else the LAST
+        # specification with the layers added so far, by the same grammar + direct-construction reference
+        outs = [] if impl == "" else impl.split(" ; ")
+        if any(o.startswith("panic") for o in outs):
+            return False, "a builder call panicked; building from a specification never panics"
+        i, k, spec, explicit, layers = 0, 0, None, False, []
+        while i < len(args):
+            t = args[i]
+            if t == "S":
+                spec = (args[i+1], args[i+2]); i += 3
+            elif t == "N":
+                i += 1
+            elif t == "B":
+                explicit = True; i += 3          # B F <d>
+            elif t == "l":
+                layers += args[i:i+2]; i += 2
+            elif t == "j":
+                layers += args[i:i+3]; i += 3
+            elif t == "w":
+                layers += args[i:i+2]; i += 2
+            elif t == "D":
+                if k >= len(outs):
+                    return False, "Build #%d has no recorded outcome" % (k + 1)
+                if not explicit:
+                    want = "err" if spec is None else ref_spec([spec[0], spec[1]] + layers)
+                    if outs[k] != want:
+                        return False, "Build #%d of the call sequence: the specification in force and the layers added so far give %s" % (k + 1, want)
+                k += 1; i += 1
+            else:
+                return True, ""
+        return True, ""
     if kind == "parseint":
         v = go_parse_int(bytes.fromhex(args[0][1:]))
         want = "err" if v is None else str(v)
@@ -287,9 +319,9 @@ SPECS = {
     "C18": dict(
         title="Backoff specifications parse totally, exactly and with the documented defaults",
         corr=corr("spec,parseint", "C18"),
-        model_note="Pure/Spec.v parse_spec/build_spec model retry/backoff.go parseFromSpec, the three parse* helpers and BackoffBuilder.Build over byte strings; strconv.ParseInt modelled exactly, strconv.ParseFloat an oracle",
+        model_note="Pure/Spec.v parse_spec/build_spec model retry/backoff.go parseFromSpec, the three parse* helpers and BackoffBuilder.Build over byte strings; Pure/Builder.v models the BackoffBuilder object (specification, remembered base, layers) over arbitrary call sequences; strconv.ParseInt modelled exactly, strconv.ParseFloat an oracle",
         trusted=COMMON_TRUST,
-        partial=["BaseBackoff(base) given explicitly is not in the model; repeated Build() calls on one builder are compared by the harness (second result must equal the first), the builder's cache itself is not modelled"],
+        partial=[],
         replay_how="each entry: spec string as hex after 'x', ParseFloat oracle for the 3rd field, layers (l n | j lobits hibits | w ratebits)",
     ),
 }
